@@ -115,6 +115,7 @@ func (e *Engine) verifyFunc(key string) (vc *VC, err error) {
 			rn[k] = v
 		}
 		bindResults(rn, r.val, fn.Signature.Results())
+		var provenEns []string
 		for i, en := range c.Ensures {
 			if strings.HasPrefix(en.Label, "assume_") {
 				vc.assumed["assumed postcondition of "+key+": "+en.Src] = true
@@ -127,8 +128,11 @@ func (e *Engine) verifyFunc(key string) (vc *VC, err error) {
 				}
 				continue
 			}
-			o := fr.oblige("ensures", clauseName("ensures", i, en), t)
+			o := fr.oblige("ensures", clauseName("ensures", i, en), implies(and(provenEns...), t))
 			o.Note = en.Src
+			if ta, err := fr.evalClause(en, &evalCtx{fr: fr, st: fr.st, old: fr.entry, names: rn, assuming: true}); err == nil {
+				provenEns = append(provenEns, ta)
+			}
 		}
 		e.frameObligations(fr, c, names)
 		e.exitInvariants(fr, names)
